@@ -181,6 +181,7 @@ type RollingFileAppender struct {
 	file     atomic.Pointer[os.File]
 	oldFile  atomic.Pointer[os.File]
 	currTime atomic.Int64
+	rotating atomic.Bool // set while a rotation is in progress
 }
 
 // Start opens the initial log file.
@@ -241,6 +242,11 @@ func (c *RollingFileAppender) rotate() {
 	if nowTime <= oldTime {
 		return
 	}
+	// Only one goroutine rotates at a time; the others keep using the current file.
+	if !c.rotating.CompareAndSwap(false, true) {
+		return
+	}
+	defer c.rotating.Store(false)
 	if !c.currTime.CompareAndSwap(oldTime, nowTime) {
 		return
 	}
